@@ -1637,6 +1637,7 @@ DECODE_MORE:
         *ptbuf = prevBuf;
         *ptlen = len;
         ssl->inlen -= processed;
+        ssl->inProcessedOff = (uint32) (buf - ssl->inbuf);
         return MATRIXSSL_RECEIVED_ALERT;
 
     case SSL_PARTIAL:
@@ -1718,6 +1719,7 @@ DECODE_MORE:
  */
         ssl->inlen -= processed;
         psAssert((uint32) ssl->inlen == start);
+        ssl->inProcessedOff = (uint32) (buf - ssl->inbuf);
 
         /* Call user plaintext data handler */
 #ifdef USE_TLS_1_1
@@ -1809,8 +1811,17 @@ int32 matrixSslProcessedData(ssl_t *ssl, unsigned char **ptbuf, uint32 *ptlen)
                 ctlen += AEAD_NONCE_LEN(ssl);
             }
         }
+        if (ssl->inProcessedOff != 0)
+        {
+            /* The decoder may have skipped records in front of the one it
+               handed out (an ignored ChangeCipherSpec, an old epoch, a
+               replay): what is left starts where the decoder stopped, not
+               one record length into the buffer. */
+            ctlen = ssl->inProcessedOff;
+        }
         Memmove(ssl->inbuf, ssl->inbuf + ctlen, ssl->inlen);
     }
+    ssl->inProcessedOff = 0;
     /* Shrink inbuf to default size once inlen < default size */
     revertToDefaultBufsize(ssl, SSL_INBUF);
 
